@@ -6,7 +6,8 @@ ASSUMPTIONS = [
     "descriptor budgets of imported libraries (rich, sqlalchemy pools beyond one connection) and pdb interaction are outside the model",
     "builds are compared with fresh-process builds over a copy of the same project, build by build (same PYTHONHASHSEED)",
     "a task that closes sys.stdout while captured (sub-project closer) is generated only as the last build of a process and never with capture=no; closed stream objects are outside the Lean model (no correspondence for that build, oracle only)",
-    "configuration failures are generated in pytask_parse_config only (invalid capture method); a failure inside a later pytask_post_parse implementation is not generated",
+    "configuration failures are generated in pytask_parse_config (invalid capture method) and in database.pytask_post_parse (corrupt database file); after the latter the ExecutionReport/Traceback class variables set by logging.pytask_post_parse stay until the next configured build (not named by the property, not claimed)",
+    "outcome vectors (skip / would-be-executed / selections through -k and -m, marks on task functions) are compared with fresh-process builds by the oracle only; the Lean model of repeated builds (collectedAt, C15_samebuilds_*) speaks about which functions are collected and assumes nothing about marks",
 ]
 
 
@@ -15,7 +16,7 @@ def run(ctx):
                 "failing import / cyclic DAG, capture fd|sys|tee-sys|no, verbose 0-2, force, dry-run, invalid configuration; before/after each build: fstat(0..2), "
                 "/proc/self/fd, identity of sys.std*, cwd, warnings.filters, pdb.set_trace, registries; outcomes vs the same build in a fresh process; "
                 "the same sequence replayed in the Lean model; non-trivial = >= 2 builds and some build executed a task; distinct by canonical sequence")
-    capture_api.campaign_c15(ctx, ctx.scale(7, 60), workers=10)
+    capture_api.campaign_c15(ctx, ctx.scale(6, 60), workers=12)
     found = {v["finding"] for v in ctx.violations}
     ctx.extra["f6b_witness_detected"] = "F6b" in found
     ctx.extra["f6c_witness_detected"] = "F6c" in found
